@@ -170,6 +170,7 @@ PROPS["C10"] = {
         ("contracts.unmarshal", "xdis.unmarshal:_VersionIndependentUnmarshaller.t_frozenset"),
         ("contracts.unmarshal", "xdis.unmarshal:_VersionIndependentUnmarshaller.t_set"),
         ("contracts.unmarshal", "xdis.unmarshal:_VersionIndependentUnmarshaller.t_list"),
+        ("contracts.unmarshal", "xdis.unmarshal:_VersionIndependentUnmarshaller.t_dict"),
     ],
     "ground": [("ground.c01", "check")],
     "bounded": [("ground.unmarshal_diff", "check"), ("ground.consts_diff", "check", {})],
@@ -199,7 +200,8 @@ PROPS["C14"] = {
 PROPS["C13"] = {
     "level": "proof",
     "contracts": [("contracts.writer", "xdis.load:write_bytecode_file"), ("contracts.writer", "xdis.load:write_bytecode_file/out-of-range"),
-                  ("contracts.writer", "xdis.marsh:_Marshaller.dump_code3"), ("contracts.writer", "xdis.marsh:_Marshaller.dump_code3/refuses-3.11")]
+                  ("contracts.writer", "xdis.marsh:_Marshaller.dump_code3"), ("contracts.writer", "xdis.marsh:_Marshaller.dump_code3/refuses-3.11"),
+                  ("contracts.writer", "xdis.marsh:_Marshaller.dump_code2")]
                  + [("contracts.marsh", _MW + n) for n in ("w_long", "w_short", "dump_long", "dump_float")],
     "ground": [("ground.writer_ts", "check")],
     "bounded": [("ground.pyc_roundtrip", "check")],
@@ -268,10 +270,10 @@ _T = {
          "closed forms of CPython's C function selected from a template family by agreement with the interpreters on sampled operands; versions without an interpreter are not covered."),
  "C17": ("_parse_varint and parse_exception_table are proved for all byte strings against the exception-table format (big-endian 6-bit varints, 4 per entry), including termination and StopIteration exactly on truncated input; the 3.11+ location-table walkers behind Code311.co_lines()/co_positions() (_scan_varint, _go_to_next_code_byte, parse_linetable, decode_position_entry) are proved against the entry layout of Objects/locations.md (all five forms, multi-byte varints, signed deltas).",
          "bounded only: the stand-alone location-entry parser parse_location_entries (nested generators and closures, outside pyvc's subset) is compared with co_positions() of CPython 3.11, 3.12 and 3.13 on generated well-formed tables; the exception-table rendering in listings is compared with the oracles' dumps."),
- "C01": ("The pure-Python unmarshaller is proved, for every input byte string, to follow the structure marshal.c defines: r_object dispatches each type code (with FLAG_REF and bytes_for_s) to the matching reader; t_code reads the fields of a code object in the order, width and signedness of each of 19 bytecode-version classes (1.0 ... 3.13) and passes each to the matching field of the portable code object, incl. the 3.11+ localsplus split and the reference slot reserved before the fields; the value readers are those of C10. Value contents and the list/dict readers are compared with the real marshal only by the bounded differential.",
+ "C01": ("The pure-Python unmarshaller is proved, for every input byte string, to follow the structure marshal.c defines: r_object dispatches each type code (with FLAG_REF and bytes_for_s) to the matching reader; t_code reads the fields of a code object in the order, width and signedness of each of 19 bytecode-version classes (1.0 ... 3.13) and passes each to the matching field of the portable code object, incl. the 3.11+ localsplus split and the reference slot reserved before the fields; the value readers (lists and dicts included) are those of C10. Value contents are compared with the real marshal only by the bounded differential.",
          "sub-objects are abstract (OBJ/END/NREF: modular induction, termination not proved here); format transcribed from marshal.c knowledge in spec/marshal_fmt.py and validated behaviourally against the marshal of 9 interpreters; 2.0 (magic 50823) layout not shipped: no oracle can arbitrate whether 2.0 code objects have free/cell variables; PyPy/Graal layouts not covered; bounded: 3.11+ localsplus with two names."),
- "C10": ("Each value reader of the unmarshaller (int32, int64, long digits, the seven length-prefixed string kinds, unicode, back references, interned-string references, small/large tuples, sets, frozensets) is proved, for all inputs, to read the field widths/signs the format defines, to consume exactly its encoding, to read its children in order with bytes_for_s passed on, and to keep the reference-table discipline (slot index = references recorded before, reserved before the children, filled with the finished object).",
-         "list/dict/float-text/complex readers, UTF-8 decoding and the equality of decoded *contents* are covered by the bounded differential against the real marshal (host marshal values, hand-assembled encodings, code objects of 9 interpreters)."),
+ "C10": ("Each value reader of the unmarshaller (int32, int64, long digits, the seven length-prefixed string kinds, unicode, back references, interned-string references, small/large tuples, sets, frozensets, lists, dicts) is proved, for all inputs, to read the field widths/signs the format defines, to consume exactly its encoding, to read its children in order with bytes_for_s passed on, and to keep the reference-table discipline (slot index = references recorded before, reserved before the children, filled with the finished object; a list or dict is registered before its children and finished in place). The dict reader is proved to store the pairs of the stream, in order, up to the first NULL key or NULL value, with None an ordinary key or value.",
+         "termination of the dict reader's `while True` loop is not proved (C11 bounds it); identity of an abstract sub-object with NULL / None is an uninterpreted predicate; float-text/complex readers, UTF-8 decoding and the equality of decoded *contents* are covered by the bounded differential against the real marshal (host marshal values, hand-assembled encodings, code objects of 9 interpreters)."),
  "C20": ("The std wrappers are proved to be plumbing into verified code: _StdApi.get_instructions / Bytecode.get_instructions invoke the stream driver exactly once with the API object's own opcode table, the code's own byte string and tables, the line starts computed for that code and line_offset = first_line - co_firstlineno; _StdApi.findlabels returns the CPython label set; the driver get_instructions_bytes is proved (all tables: words for 3.6+, 1/3-byte instructions before) to tile the code with CPython's globally folded operands and to pass the decoder's is_jump_target / starts_line (incl. the first_line shift) through; the decoder and label finders it relies on are proved per table.",
          "object coercion (functions, methods, generators, coroutines, classes, source strings -> code), first_line, argval and the module-level tables are compared with the host's own dis under each of the six hosts only by a bounded differential (ground/std_diff.py; known finding: arg of WITH_EXCEPT_START on 3.13); code objects with an exception table take the exception_entries path that is outside the driver's contract; dict(findlinestarts(..)) is an abstract map tied to its source sequence."),
  "C16": ("codeType2Portable, Code38/Code310/Code311.to_native and Code13.replace are proved, for each host 3.8-3.13 (attribute set and positional constructor order of types.CodeType taken from the real interpreters), to map every field to the same field (in particular the host's real line table and exception table), to choose the portable class of the host's version, and to leave the original object unchanged.",
@@ -288,7 +290,7 @@ _T = {
          "the composition of C01/C10/C16 into 'both loader paths agree' is an argument in DESIGN.md section 10.5, not a machine-checked lemma; the host's marshal.loads is trusted; hosts are the six installed interpreters; static analysis assumptions of ground/frames.py; two recorded cosmetic known findings (code-object repr, set element order)."),
  "C14": ("The integer paths of xdis.marsh are proved for every int of any size: w_long/w_short/w_long64 append exactly the little-endian words that read back (two's complement) to the value; dump_int picks 'i'/'I' by range; dump_long writes 'l', the signed digit count and the 15-bit digits of |x| (loop invariants over a positional-notation spec with an induction lemma: the digits sum back to |x|, top digit non-zero, all digits < 2**15); the fast reader's _r_short/_r_long/_r_long64 are proved to decode the same words. dump_float's text is proved to be repr() of the argument framed by its length byte. Other text, complex and container writers/readers are compared with the marshal of hosts 3.8-3.13 by a bounded differential in both directions (dumps/loads, and the file-object forms dump/load: two recorded known findings - both file-object forms are unusable on Python 3).",
          "the byte sink is a ghost sequence of everything written through self._write; chr()/str concatenation modelled for code points < 256; load_long's accumulation (x | d << 15 i with symbolic shift) and all non-integer paths are bounded only; bytes-assembly in dumps() is bounded only."),
- "C13": ("write_bytecode_file is proved, for the magic of every final CPython release 1.3-3.13 and all timestamps/source sizes, to write exactly the header that the C06-verified reader decodes back to the same (magic, flags 0, timestamp, size), followed by the marshaller's bytes and nothing else, to the path given, and to close the file; out-of-range header words raise. The timestamp forms outside that domain (None, 0 or omitted: the current time is stamped; a datetime; a value of another type: TypeError) are enumerated exhaustively per final magic and kind of code object against the same header specification. _Marshaller.dump_code3 is proved to emit the fields of a 3.0-3.10 code object in the order and width of the layout the reader t_code is verified against (C01), and to refuse 3.11+ objects; w_long/w_short/dump_long as in C14. Whether the rewritten file is the same program is judged by the target interpreters (2.7, 3.6-3.13) and by xdis re-reading it, on 13 programs per version: bounded.",
+ "C13": ("write_bytecode_file is proved, for the magic of every final CPython release 1.3-3.13 and all timestamps/source sizes, to write exactly the header that the C06-verified reader decodes back to the same (magic, flags 0, timestamp, size), followed by the marshaller's bytes and nothing else, to the path given, and to close the file; out-of-range header words raise. The timestamp forms outside that domain (None, 0 or omitted: the current time is stamped; a datetime; a value of another type: TypeError) are enumerated exhaustively per final magic and kind of code object against the same header specification. _Marshaller.dump_code3 is proved to emit the fields of a 3.0-3.10 code object in the order and width of the layout the reader t_code is verified against (C01), and to refuse 3.11+ objects; _Marshaller.dump_code2 is proved to emit the 2.3-2.7 layout with co_code, co_filename, co_name, co_lnotab and every entry of co_names / co_varnames written through dump_string (byte strings for Python 2), each tuple framed by '(' and its own length (tuples of 2 and 3 entries: the per-entry loops are unrolled, a bound of that unit); w_long/w_short/dump_long as in C14. Whether the rewritten file is the same program is judged by the target interpreters (2.7, 3.6-3.13) and by xdis re-reading it, on 13 programs per version: bounded.",
          "marshal.dumps / xdis.marsh.dumps are external in the header proof (their result is an opaque byte chunk); dump() of sub-objects is abstract (D(v)) in the layout proof; compilation_ts given as a positive int (the datetime / now() branches are not under contract); dump_code2 (Python 2 layout) is not under contract: three recorded known findings live there; 1.0/1.1 magics excluded (the writer always writes \\r\\n)."),
 }
 for _k, (_a, _b) in _T.items():
